@@ -81,7 +81,7 @@ CANON_PREFIX = [
 # shape / dtype / container conversions that do not change element values
 TRANSPARENT = {
     "np.array", "np.asarray", "np.float64", "float", "np.squeeze",
-    "np.ravel", "np.atleast_1d", "jax.device_put", "jax.device_get",
+    "np.ravel", "jax.device_put", "jax.device_get",
 }
 POINTWISE = {"where", "abs", "exp", "log", "clip", "minimum", "maximum", "not", "and", "or", "astype"}
 REDUCERS = {"max", "min", "sum", "any", "all", "argmax", "argmin", "prod", "mean", "count_nonzero"}
@@ -247,6 +247,25 @@ class Interp:
                 fsrc = ast.unparse(v.func)
                 if fsrc.startswith("logger."):
                     return None
+                # list building: xs.append(v) / xs.extend(vs) / xs.insert(0, v) on a local list literal
+                if isinstance(v.func, ast.Attribute) and isinstance(v.func.value, ast.Name) and v.func.attr in ("append", "extend", "insert") \
+                        and not v.keywords and isinstance(env.get(v.func.value.id), tuple) and env[v.func.value.id][:1] == ("tuple",):
+                    cur = env[v.func.value.id]
+                    if v.func.attr == "append" and len(v.args) == 1:
+                        env[v.func.value.id] = ("tuple", cur[1] + (self.ev(v.args[0], env, fr),))
+                        return None
+                    if v.func.attr == "extend" and len(v.args) == 1:
+                        more = self.ev(v.args[0], env, fr)
+                        if more[0] != "tuple":
+                            raise Unsupported("list.extend with a non-literal")
+                        env[v.func.value.id] = ("tuple", cur[1] + more[1])
+                        return None
+                    if v.func.attr == "insert" and len(v.args) == 2:
+                        pos = self.ev(v.args[0], env, fr)
+                        if pos == ZERO:
+                            env[v.func.value.id] = ("tuple", (self.ev(v.args[1], env, fr),) + cur[1])
+                            return None
+                    raise Unsupported(f"list mutation {fsrc} at line {s.lineno}")
                 val = self.ev(v, env, fr)
                 self.stmt_calls.append((val, s.lineno))
             return None
@@ -1104,6 +1123,12 @@ class Interp:
         return ("lam", i, ax[0], self.elem(t, i))
 
     def arith(self, op, a, b):
+        if op == "Add" and a[0] == "tuple" and b[0] == "tuple":
+            return ("tuple", a[1] + b[1])  # list / tuple concatenation
+        if op == "Mult" and ((a[0] == "tuple" and is_num(b)) or (b[0] == "tuple" and is_num(a))):
+            tup, n = (a, b) if a[0] == "tuple" else (b, a)
+            if n[1].denominator == 1 and 0 <= n[1] <= 64:
+                return ("tuple", tup[1] * int(n[1]))  # (None,) * 4
         for x, y, swap in ((a, b, False), (b, a, True)):
             if x[0] == "lam":
                 i = x[1]
@@ -1146,9 +1171,9 @@ class Interp:
     def dot(self, x, y):
         vx, vy = _vector_items(x), _vector_items(y)
         # hstack of n items against a literal of n scalars: every item is a scalar
-        if vx is None and vy is not None and x[0] == "app" and x[1] == "hstack" and len(x[2]) == len(vy):
+        if vx is None and vy is not None and x[0] == "app" and x[1] in ("hstack", "stack") and len(x[2]) == len(vy):
             vx = list(x[2])
-        if vy is None and vx is not None and y[0] == "app" and y[1] == "hstack" and len(y[2]) == len(vx):
+        if vy is None and vx is not None and y[0] == "app" and y[1] in ("hstack", "stack") and len(y[2]) == len(vx):
             vy = list(y[2])
         if vx is not None and vy is not None and len(vx) == len(vy):
             r = ZERO
@@ -1285,6 +1310,12 @@ class Interp:
         return ("lam", i, tag, t)
 
     def scan(self, f, init, xs, reverse=False, node=None):
+        if xs[0] == "app" and xs[1] == "flip1":
+            # a scan over the flipped sequence is the scan in the other direction with its outputs flipped
+            r = self.scan(f, init, xs[2][0], reverse=not reverse, node=node)
+            if r[0] == "tuple" and len(r[1]) == 2:
+                return ("tuple", (r[1][0], _p_flip(self, [r[1][1]], {}, node)))
+            return r
         i = fresh("?")
         tags: list[str] = []
         x = self.map_arg(xs, ZERO, i, tags)
@@ -1587,6 +1618,46 @@ def _p_tile(I, args, kw, node):
     return ("app", "np.tile", (x, reps))
 
 
+def _p_flip(I, args, kw, node):
+    x = args[0]
+    axis = kw.get("axis", args[1] if len(args) > 1 else NONE)
+    if axis not in (NONE, ZERO, K(-1)):
+        return ("app", "np.flip", (x, ("kw", "axis", axis)))
+    if x[0] == "app" and x[1] == "flip1":
+        return x[2][0]  # flip(flip(v)) == v
+    return ("app", "flip1", (x,))
+
+
+def _p_functools_reduce(I, args, kw, node):
+    f, it = args[0], args[1]
+    if it[0] != "tuple" or not it[1]:
+        raise Unsupported("functools.reduce over a non-literal iterable")
+    items = list(it[1])
+    acc = args[2] if len(args) > 2 else items.pop(0)
+    for x in items:
+        acc = I.call_value(f, [acc, x], {})
+    return acc
+
+
+def _p_select(I, args, kw, node):
+    # jnp.select(condlist, choicelist, default): the first condition that holds picks its choice
+    conds, choices = args[0], args[1]
+    default = args[2] if len(args) > 2 else kw.get("default", ZERO)
+    if conds[0] != "tuple" or choices[0] != "tuple" or len(conds[1]) != len(choices[1]):
+        raise Unsupported("select over non-literal lists")
+    r = default
+    for c, v in reversed(list(zip(conds[1], choices[1]))):
+        r = I.pointwise("where", [c, v, r])
+    return r
+
+
+def _p_atleast_1d(I, args, kw, node):
+    x = args[0]
+    if x[0] == "lam" or I.axes_of(x) or (x[0] == "app" and x[1] in ("array", "hstack", "slice")):
+        return x
+    return ("app", "array", (("tuple", (x,)),))
+
+
 def _p_product(I, args, kw, node):
     # itertools.product(X, repeat=n) is itertools.product(*[X for _ in range(n)])
     if len(args) == 1 and set(kw) == {"repeat"} and args[0][0] != "star":
@@ -1680,6 +1751,10 @@ PRIMS = {
     "np.reshape": _p_reshape,
     "np.tile": _p_tile,
     "itertools.product": _p_product,
+    "np.select": _p_select,
+    "np.flip": _p_flip,
+    "functools.reduce": _p_functools_reduce,
+    "np.atleast_1d": _p_atleast_1d,
     "random.split": _p_split,
     "random.permutation": _p_permutation,
 }
@@ -1713,6 +1788,8 @@ for _n, _op in (("subtract", "Sub"), ("add", "Add"), ("multiply", "Mult"), ("div
     PRIMS["np." + _n] = _p_arith(_op)
 for _n, _op in (("less", "Lt"), ("less_equal", "LtE"), ("greater", "Gt"), ("greater_equal", "GtE"), ("equal", "Eq"), ("not_equal", "NotEq")):
     PRIMS["np." + _n] = _p_cmp(_op)
+for _n, _op in (("add", "Add"), ("sub", "Sub"), ("mul", "Mult"), ("truediv", "Div"), ("matmul", "MatMult"), ("mod", "Mod"), ("floordiv", "FloorDiv")):
+    PRIMS["operator." + _n] = _p_arith(_op)
 PRIMS["np.ptp"] = _p_ptp
 PRIMS["np.amax"] = _p_reduce("max")
 PRIMS["np.amin"] = _p_reduce("min")
